@@ -2724,6 +2724,20 @@ class Pos(Unaryop):
     _operator_repr = "+"
 
 
+def _divisions_of_selection(full_divisions, partitions):
+    """Divisions of a selection of partitions
+
+    The lower bounds of the selected partitions are only valid divisions if
+    the partitions are selected in increasing order without repetition.
+    """
+    partitions = list(partitions)
+    if any(b <= a for a, b in zip(partitions, partitions[1:])):
+        return (None,) * (len(partitions) + 1)
+    divisions = [full_divisions[part] for part in partitions]
+    divisions.append(full_divisions[partitions[-1] + 1])
+    return tuple(divisions)
+
+
 class Partitions(Expr):
     """Select one or more partitions"""
 
@@ -2734,11 +2748,7 @@ class Partitions(Expr):
         return self.frame._meta
 
     def _divisions(self):
-        divisions = []
-        for part in self.partitions:
-            divisions.append(self.frame.divisions[part])
-        divisions.append(self.frame.divisions[part + 1])
-        return tuple(divisions)
+        return _divisions_of_selection(self.frame.divisions, self.partitions)
 
     def _task(self, index: int):
         return (self.frame._name, self.partitions[index])
@@ -2806,11 +2816,7 @@ class PartitionsFiltered(Expr):
             return full_divisions
 
         # Specific case: Specific partitions were selected
-        new_divisions = []
-        for part in self._partitions:
-            new_divisions.append(full_divisions[part])
-        new_divisions.append(full_divisions[part + 1])
-        return tuple(new_divisions)
+        return _divisions_of_selection(full_divisions, self._partitions)
 
     @property
     def npartitions(self):
